@@ -231,7 +231,7 @@ def validParts (parts : List ((Nat × Int) × Bytes)) (id : Nat) (pl : List (Opt
     else none
 
 /-- what must hold for the owner's `complete_multipart_upload` to be compared with the store: the names are admissible and
-    the key canonical. EVERY part list is inside (fa59617, a00e4e8; before, only the lists `1, 2, …, m` were:
+    the key canonical. EVERY part list is inside (dbb8684, 0fcb858; before, only the lists `1, 2, …, m` were:
     fs:complete-requires-consecutive-parts, fs:complete-part-list-validation): a complete that fails validation — a part
     without a number (`MalformedXML`), numbers not strictly ascending (`InvalidPartOrder`), a listed part that was never
     uploaded (`InvalidPart`), a part other than the last below the minimum size (`EntityTooSmall`), in this order — is
@@ -243,7 +243,7 @@ def CompleteOwnerOk (s : State) (b k : Bytes) (id : Nat) (pl : List (Option Int)
     | some _ => CompleteSuccessOk s b k id)
 
 /-- `complete_multipart_upload` comparable: a request without a part list or with an empty one is inside (`MalformedXML` on
-    both sides, before the upload is looked at: a00e4e8; before: fs:complete-part-list-validation); the upload does not
+    both sides, before the upload is looked at: 0fcb858; before: fs:complete-part-list-validation); the upload does not
     exist under this bucket and key (`NoSuchUpload` on both sides since 4609ab3 and, for an upload created for another
     bucket or key, 41e1cf2; before: fs:unknown-upload-code, fs:upload-not-bound-to-key), or, if the requester owns it, the
     request meets `CompleteOwnerOk` -/
